@@ -199,6 +199,8 @@ class Inliner:
         h = fis[0]
         if isinstance(h.node, ast.Lambda) or h is caller or h.module is not caller.module:
             return None
+        if h.qualname in getattr(self, 'keep', ()):
+            return None
         # same module; helper kinds: module level, nested sibling / child, method of the same class via self / cls / Class
         a = h.node.args
         if a.vararg or a.kwarg or a.posonlyargs:
@@ -346,10 +348,10 @@ class Inliner:
         return '_ret__i%d' % self.counter
 
 
-def normalized(ctx, fi, depth=2, do_canon=True):
+def normalized(ctx, fi, depth=2, do_canon=True, keep=()):
     """A FuncInfo whose node is a normalised deep copy of fi.node (helpers inlined, canonical spellings)."""
     cache = ctx.__dict__.setdefault('_norm_cache', {})
-    key = (fi.qualname, depth, do_canon)
+    key = (fi.qualname, depth, do_canon, tuple(sorted(keep)))
     if key in cache:
         return cache[key]
     if isinstance(fi.node, ast.Lambda):
@@ -357,6 +359,7 @@ def normalized(ctx, fi, depth=2, do_canon=True):
         return fi
     node = copy.deepcopy(fi.node)
     inl = Inliner(ctx)
+    inl.keep = set(keep)
     # resolution of calls inside the copy needs parent links and function tables: work on the original for resolution by
     # mapping each copied call back to its original through position
     orig_calls = {}
